@@ -5,6 +5,10 @@ CHECKS = [
   "technique": "property-based testing: exhaustive config-lattice x breakpoint-walk enumeration + Hypothesis random tensors against an exact code-lattice membership oracle",
   "text": "Every configuration of the fixed-point option lattice (bits<=8 quick, <=16 thorough) is run over its complete breakpoint walk (every code and every rounding breakpoint +-2 ulp, saturation edges, zeros/denormals, large magnitudes) plus Hypothesis tensors of rank 0..4; each output is tested exactly for lattice membership, code range, min()/max() enclosure, and on the full walk reachability of every code and range()==reachable set. Search, not proof: between breakpoints correctness rests on the piecewise-constant structure.",
   "note": "Trusts TensorFlow eager float32 kernels and numpy float64 (exact for power-of-two units). Inputs limited to |x|<2^22 steps; constant alpha limited to powers of two."},
+ {"id": "C02", "design": "DESIGN.md 5/C02",
+  "technique": "property-based testing: config-lattice x sorted breakpoint-walk enumeration + Hypothesis random tensors against an exact nearest-code reference (float64 on float32 data), monotonicity and idempotence relations",
+  "text": "For every configuration of the fixed-point lattice the full sorted breakpoint walk and Hypothesis tensors are compared element-wise with a reference projection: |y - clip(s(x))| <= step/2 (exact for linear/ReLU/leaky-ReLU surrogates, +4 float32 ulp for tanh/sigmoid surrogates evaluated in float64), outputs non-decreasing along sorted inputs, and q(q(x)) == q(x) for linear and plain-ReLU formats. Search at every breakpoint neighbourhood, not a proof.",
+  "note": "Trusts numpy float64 tanh/exp as the surrogate reference and TF eager kernels. quantized_relu(use_sigmoid=1) and 1-bit sign modes are only checked for monotonicity. Legacy quantized_bits with constant alpha != 1 is a recorded known finding (C02-KF1); its unscaled projection is still checked."},
 ]
 _claimed = {c["id"] for c in CHECKS}
 NOT_APPLICABLE = [{"property_id": "C%02d" % i, "reason": _PENDING} for i in range(1, 21) if "C%02d" % i not in _claimed]
